@@ -2,8 +2,225 @@
 use crate::exec::Runner;
 use crate::gen::Gen;
 
+/// Known defect F2 of hashbrown 0.15.2: `get_many_mut` on a table of zero-sized elements reports
+/// "duplicate keys" for any two *distinct* entries (it compares dangling element pointers). While this
+/// is `true` the table generators do not emit that one combination (zero-sized layout,
+/// `get_many_mut_any` with two or more different requests on a non-empty table), so that runs stay green.
+pub const AVOID_F2: bool = true;
+
+fn tbl_new_elem(g: &mut Gen, k: u64) -> String {
+    let id = g.id();
+    format!("{} {} {}", k, id, 100 + g.rng.below(50))
+}
+
+/// A key (other than `k`) whose planned hash carries the same 7-bit tag as that of `k`.
+fn tbl_collider(g: &mut Gen, k: u64) -> u64 {
+    let t = crate::tape::plan_hash(k) >> 57;
+    let start = g.key();
+    for d in 0..std::cmp::min(g.universe, 64) {
+        let c = (start + d) % g.universe;
+        if c != k && crate::tape::plan_hash(c) >> 57 == t {
+            return c;
+        }
+    }
+    g.key()
+}
+
+/// `get_many_mut` / `get_many_mut_any` with 0..=4 requests steered toward present, absent,
+/// duplicate and colliding keys.
+fn tbl_many(g: &mut Gen, r: &dyn Runner, tgt: &str) -> String {
+    let n = g.rng.below(5) as usize;
+    let present = r.keys(tgt);
+    let zst = r.layout().0 == 0;
+    let any = g.rng.chance(1, 3);
+    let mut ks: Vec<u64> = Vec::new();
+    for _ in 0..n {
+        let mode = g.rng.below(10);
+        let k = if mode < 4 && !present.is_empty() {
+            *g.rng.pick(&present)
+        } else if mode < 6 {
+            g.key()
+        } else if mode < 7 && !ks.is_empty() {
+            *g.rng.pick(&ks)
+        } else if mode < 9 && !ks.is_empty() {
+            let k0 = ks[0];
+            tbl_collider(g, k0)
+        } else {
+            g.universe + g.rng.below(3)
+        };
+        ks.push(k);
+    }
+    if AVOID_F2 && any && zst && n >= 2 && r.dump(tgt).items > 0 {
+        ks = vec![ks[0]; n];
+    }
+    let name = if any { "get_many_mut_any" } else { "get_many_mut" };
+    let args: Vec<String> = ks.iter().map(|k| k.to_string()).collect();
+    format!("{} {} {}", tgt, name, args.join(" ")).trim_end().to_string()
+}
+
+fn tbl_key(g: &mut Gen, r: &dyn Runner, tgt: &str) -> u64 {
+    // mostly keys that are stored (for zero-sized elements only the hash of the key matters)
+    if r.layout().0 != 0 && g.rng.chance(2, 3) {
+        if let Some(k) = g.present_key(r, tgt) {
+            return k;
+        }
+    }
+    g.key()
+}
+
+/// insert_unique / remove / find with tombstone build-up: fill until `growth_left == 0`, thin out
+/// (removals from full runs leave DELETED bytes) until less than half of the capacity is used, refill
+/// until the table has rehashed (in place if enough tombstones are left), repeat.
+fn tbl_churn(g: &mut Gen, r: &dyn Runner) -> String {
+    let d = r.dump("a");
+    let cap = hashbrown::verif::bucket_mask_to_capacity(d.bucket_mask);
+    let ins = match g.phase {
+        0 => {
+            // (a table of 16 buckets never gets a tombstone with 16-byte groups)
+            if !d.is_singleton && d.growth_left == 0 && d.bucket_mask + 1 >= std::cmp::max(g.target_buckets, 32) {
+                g.phase = 1;
+            }
+            75
+        }
+        1 => {
+            // `growth_left == 0` with at most half of the capacity used: the next `entry` (which
+            // reserves before it searches) rehashes in place; otherwise thin further to leave room
+            if d.growth_left == 0 && (d.items + 4) * 2 <= cap || d.items * 4 <= cap {
+                g.phase = 2;
+            }
+            8
+        }
+        _ => {
+            if d.growth_left > 0 && g.rng.chance(1, 12) {
+                g.phase = 0;
+            }
+            70
+        }
+    };
+    let x = g.rng.below(100);
+    if x < ins {
+        let k = g.key();
+        let entry_odds = if g.phase == 2 && d.growth_left == 0 { 1 } else if g.phase == 2 { 2 } else { 8 };
+        if g.rng.chance(1, entry_odds) {
+            format!("a {} {}", g.rng.pick(&["entry_insert", "entry_or_insert"]), tbl_new_elem(g, k))
+        } else {
+            format!("a insert_unique {}", tbl_new_elem(g, k))
+        }
+    } else if x < ins + 8 || g.phase == 1 && x < 80 {
+        let k = tbl_key(g, r, "a");
+        let name = *g.rng.pick(&["remove", "find_entry_remove", "find_entry_remove_drop"]);
+        format!("a {} {}", name, k)
+    } else {
+        let y = g.rng.below(100);
+        let k = tbl_key(g, r, "a");
+        if y < 25 {
+            format!("a find_entry_remove_reinsert {}", tbl_new_elem(g, k))
+        } else if y < 55 {
+            format!("a find {}", k)
+        } else if y < 65 {
+            format!("a findmut {} {}", k, 500 + g.rng.below(100))
+        } else if y < 75 {
+            format!("a {} {}", g.rng.pick(&["iter_hash", "iter_hash_mut"]), k)
+        } else if y < 87 {
+            tbl_many(g, r, "a")
+        } else if y < 93 {
+            format!("a iter {} iter", g.rng.below(6))
+        } else {
+            "a len".to_string()
+        }
+    }
+}
+
 pub fn next_table(g: &mut Gen, r: &dyn Runner) -> String {
-    g.mixed(r)
+    if g.profile == "table-churn" {
+        return tbl_churn(g, r);
+    }
+    let x = g.rng.below(1000);
+    let tgt = if g.rng.chance(1, 6) { "b" } else { "a" };
+    let d = r.dump(tgt);
+    if x < 250 {
+        // duplicates are legal: the key may already be stored
+        let k = g.key();
+        format!("{} insert_unique {}", tgt, tbl_new_elem(g, k))
+    } else if x < 330 {
+        let k = tbl_key(g, r, tgt);
+        let name = *g.rng.pick(&["remove", "find_entry_remove", "find_entry_remove_drop"]);
+        format!("{} {} {}", tgt, name, k)
+    } else if x < 370 {
+        let k = tbl_key(g, r, tgt);
+        format!("{} find_entry_remove_reinsert {}", tgt, tbl_new_elem(g, k))
+    } else if x < 420 {
+        let k = tbl_key(g, r, tgt);
+        format!("{} {} {}", tgt, g.rng.pick(&["find", "get"]), k)
+    } else if x < 450 {
+        let k = tbl_key(g, r, tgt);
+        format!("{} findmut {} {}", tgt, k, 500 + g.rng.below(100))
+    } else if x < 500 {
+        let k = g.key();
+        format!("{} entry_insert {}", tgt, tbl_new_elem(g, k))
+    } else if x < 540 {
+        let k = g.key();
+        format!("{} entry_or_insert {}", tgt, tbl_new_elem(g, k))
+    } else if x < 570 {
+        let k = tbl_key(g, r, tgt);
+        format!("{} entry_and_modify {} {}", tgt, k, 700 + g.rng.below(100))
+    } else if x < 650 {
+        tbl_many(g, r, tgt)
+    } else if x < 690 {
+        let k = tbl_key(g, r, tgt);
+        format!("{} {} {}", tgt, g.rng.pick(&["iter_hash", "iter_hash_mut"]), k)
+    } else if x < 730 {
+        let len = d.items as u64;
+        let p = match g.rng.below(4) {
+            0 => 0,
+            1 => len,
+            2 => len + 1 + g.rng.below(3),
+            _ => g.rng.below(len + 1),
+        };
+        format!("{} iter {} {}", tgt, p, g.rng.pick(&["iter", "iter_mut"]))
+    } else if x < 760 {
+        format!("{} retain", tgt)
+    } else if x < 785 {
+        format!("{} extract_if {}", tgt, g.rng.below(12))
+    } else if x < 805 {
+        format!("{} drain {} {}", tgt, g.rng.below(12), if g.rng.chance(1, 5) { 1 } else { 0 })
+    } else if x < 815 {
+        format!("{} into_iter {}", tgt, g.rng.below(12))
+    } else if x < 830 {
+        format!("{} clear", tgt)
+    } else if x < 860 {
+        let n = match g.rng.below(4) {
+            0 => g.rng.below(4),
+            1 => d.growth_left as u64 + g.rng.below(3),
+            2 => g.rng.below(4 * (d.items + d.growth_left + 1) as u64),
+            _ => g.rng.below(70),
+        };
+        format!("{} reserve {}", tgt, n)
+    } else if x < 880 {
+        let n = match g.rng.below(6) {
+            0 => u64::MAX - g.rng.below(3),
+            // (a zero-sized layout never overflows: only requests that overflow `cap * 8` there, the
+            // others would really ask the system allocator for 2^59.. control bytes)
+            1 if r.layout().0 == 0 => (i64::MAX as u64) / *g.rng.pick(&[1u64, 2]) + g.rng.below(3),
+            1 => (i64::MAX as u64) / *g.rng.pick(&[1u64, 2, 16, 32, 33]) + g.rng.below(3),
+            _ => g.rng.below(80),
+        };
+        format!("{} try_reserve {}", tgt, n)
+    } else if x < 905 {
+        format!("{} shrink_to {}", tgt, g.rng.below(2 * (d.items + d.growth_left + 1) as u64))
+    } else if x < 920 {
+        format!("{} shrink_to_fit", tgt)
+    } else if x < 932 {
+        format!("{} with_capacity {}", tgt, g.rng.below(60))
+    } else if x < 957 {
+        format!("{} clone_to_other", tgt)
+    } else if x < 982 {
+        format!("{} clone_from", tgt)
+    } else if x < 992 {
+        format!("{} len", tgt)
+    } else {
+        format!("{} nop", tgt)
+    }
 }
 pub fn next_set(g: &mut Gen, r: &dyn Runner) -> String {
     if g.profile == "set-pairs" {
@@ -310,6 +527,316 @@ fn set_pairs(g: &mut Gen, r: &dyn Runner) -> String {
     g.phase = 0;
     set_pairs(g, r)
 }
+/// Profiles `entry` (mixed map traffic, ~60% entry-style ops over a small universe) and
+/// `entry-full` (first steer the table to `growth_left == 0`, to a tombstone-laden state or to the
+/// unallocated singleton, then issue entry ops there).
 pub fn next_entry(g: &mut Gen, r: &dyn Runner) -> String {
-    g.mixed(r)
+    if g.profile == "entry-full" {
+        if let Some(op) = ent_steer(g, r) {
+            return op;
+        }
+    }
+    if g.rng.chance(6, 10) {
+        let tgt = if g.rng.chance(1, 8) { "b" } else { "a" };
+        ent_op(g, r, tgt, 50)
+    } else {
+        g.mixed(r)
+    }
+}
+
+/// A key of the universe that is not stored in `tgt` (a few random probes).
+fn ent_absent_key(g: &mut Gen, r: &dyn Runner, tgt: &str) -> Option<u64> {
+    let ks = r.keys(tgt);
+    for _ in 0..12 {
+        let k = g.key();
+        if !ks.contains(&k) {
+            return Some(k);
+        }
+    }
+    (0..g.universe).find(|k| !ks.contains(k))
+}
+
+/// Key for an entry op: absent with probability `absent_pct`%, else present (when possible).
+fn ent_key(g: &mut Gen, r: &dyn Runner, tgt: &str, absent_pct: u64) -> u64 {
+    if g.rng.chance(absent_pct, 100) {
+        if let Some(k) = ent_absent_key(g, r, tgt) {
+            return k;
+        }
+    }
+    if g.rng.chance(9, 10) {
+        if let Some(k) = g.present_key(r, tgt) {
+            return k;
+        }
+    }
+    g.key()
+}
+
+fn ent_val(g: &mut Gen) -> String {
+    format!("{} {}", g.id(), 100 + g.rng.below(50))
+}
+
+fn ent_keep(g: &mut Gen) -> &'static str {
+    if g.rng.chance(1, 2) {
+        "keep"
+    } else {
+        "remove"
+    }
+}
+
+/// Chain of `Entry` methods.
+fn ent_chain(g: &mut Gen) -> String {
+    let nv = 500 + g.rng.below(100);
+    match g.rng.below(22) {
+        0 | 1 | 2 => format!("insert {}", ent_val(g)),
+        3 | 4 | 5 => format!("or_insert {}", ent_val(g)),
+        6 => format!("or_insert_with {}", ent_val(g)),
+        7 => format!("or_insert_with_key {}", ent_val(g)),
+        8 => format!("and_modify {} or_insert {}", nv, ent_val(g)),
+        9 => "key".into(),
+        10 => "drop".into(),
+        11 | 12 => "occ_remove".into(),
+        13 => "occ_remove_entry".into(),
+        14 => format!("occ_insert {}", ent_val(g)),
+        15 => format!("occ_get_mut {}", nv),
+        16 => format!("replace_entry_with {} {}", ent_keep(g), nv),
+        17 => format!("and_replace_entry_with {} {}", ent_keep(g), nv),
+        18 | 19 => format!("vac_insert {}", ent_val(g)),
+        20 => format!("vac_insert_entry {}", ent_val(g)),
+        _ => "vac_into_key".into(),
+    }
+}
+
+fn ent_ref_chain(g: &mut Gen) -> String {
+    let nv = 500 + g.rng.below(100);
+    match g.rng.below(8) {
+        0 | 1 => format!("insert {}", ent_val(g)),
+        2 | 3 => format!("or_insert {}", ent_val(g)),
+        4 => format!("or_insert_with {}", ent_val(g)),
+        5 => format!("and_modify {} or_insert {}", nv, ent_val(g)),
+        6 => "drop".into(),
+        _ => "key".into(),
+    }
+}
+
+fn ent_rustc_chain(g: &mut Gen) -> String {
+    match g.rng.below(10) {
+        0 | 1 => format!("insert {}", ent_val(g)),
+        2 | 3 => format!("or_insert {}", ent_val(g)),
+        4 => "occ_remove".into(),
+        5 => format!("occ_insert {}", ent_val(g)),
+        6 | 7 => format!("vac_insert {}", ent_val(g)),
+        8 => format!("vac_insert_entry {}", ent_val(g)),
+        _ => "drop".into(),
+    }
+}
+
+fn ent_raw_chain(g: &mut Gen) -> String {
+    let nv = 500 + g.rng.below(100);
+    match g.rng.below(16) {
+        0 | 1 => format!("insert {} {}", g.id(), ent_val(g)),
+        2 | 3 => format!("or_insert {} {}", g.id(), ent_val(g)),
+        4 | 5 => format!("vac_insert {} {}", g.id(), ent_val(g)),
+        6 => format!("vac_insert_hashed {} {}", g.id(), ent_val(g)),
+        7 => format!("vac_insert_with_hasher {} {}", g.id(), ent_val(g)),
+        8 => "occ_remove".into(),
+        9 => "occ_remove_entry".into(),
+        10 => format!("occ_insert {}", ent_val(g)),
+        11 => format!("occ_insert_key {}", g.id()),
+        12 => format!("and_modify {}", nv),
+        13 | 14 => format!("replace_entry_with {} {}", ent_keep(g), nv),
+        _ => "drop".into(),
+    }
+}
+
+fn ent_items(g: &mut Gen, r: &dyn Runner, tgt: &str, max: u64) -> String {
+    let cnt = g.rng.below(max + 1);
+    let mut s = format!("{}", cnt);
+    for _ in 0..cnt {
+        let k = ent_key(g, r, tgt, 60);
+        let kid = g.id();
+        s.push_str(&format!(" {} {} {}", k, kid, ent_val(g)));
+    }
+    s
+}
+
+/// One entry-style op on `tgt`; keys are absent with probability `absent_pct`%.
+fn ent_op(g: &mut Gen, r: &dyn Runner, tgt: &str, absent_pct: u64) -> String {
+    let x = g.rng.below(100);
+    let k = ent_key(g, r, tgt, absent_pct);
+    if x < 30 {
+        let kid = g.id();
+        format!("{} entry {} {} {}", tgt, k, kid, ent_chain(g))
+    } else if x < 40 {
+        let kid = g.id();
+        format!("{} entry_ref {} {} {}", tgt, k, kid, ent_ref_chain(g))
+    } else if x < 45 {
+        let kid = g.id();
+        format!("{} try_insert {} {} {}", tgt, k, kid, ent_val(g))
+    } else if x < 63 {
+        let mode = *g.rng.pick(&["raw_from_key", "raw_from_key", "raw_from_key_hashed", "raw_from_hash"]);
+        format!("{} {} {} {}", tgt, mode, k, ent_raw_chain(g))
+    } else if x < 66 {
+        format!("{} {} {}", tgt, if g.rng.chance(1, 2) { "raw_get" } else { "raw_get_hash" }, k)
+    } else if x < 80 {
+        let kid = g.id();
+        format!("{} rustc_entry {} {} {}", tgt, k, kid, ent_rustc_chain(g))
+    } else if x < 84 {
+        format!("{} extend {}", tgt, ent_items(g, r, tgt, 6))
+    } else if x < 86 {
+        format!("{} from_iter {}", tgt, ent_items(g, r, tgt, 8))
+    } else if x < 91 {
+        // mostly distinct requests; duplicates of present keys make the call panic
+        let cnt = g.rng.below(5);
+        let mut ks: Vec<u64> = Vec::new();
+        for _ in 0..cnt {
+            let mut k = ent_key(g, r, tgt, 30);
+            if ks.contains(&k) && !g.rng.chance(1, 6) {
+                k = g.key();
+            }
+            ks.push(k);
+        }
+        let name = if g.rng.chance(1, 2) { "get_many_mut" } else { "get_many_key_value_mut" };
+        let ks: Vec<String> = ks.iter().map(|k| k.to_string()).collect();
+        format!("{} {} {}", tgt, name, ks.join(" ")).trim_end().to_string()
+    } else if x < 94 {
+        let k = if g.rng.chance(1, 6) { k } else { g.present_key(r, tgt).unwrap_or(k) };
+        format!("{} index {}", tgt, k)
+    } else if x < 97 {
+        match ent_absent_key(g, r, tgt) {
+            Some(k) => {
+                let kid = g.id();
+                format!("{} insert_unique_unchecked {} {} {}", tgt, k, kid, ent_val(g))
+            }
+            None => format!("{} values_mut_set {}", tgt, 700 + g.rng.below(50)),
+        }
+    } else if x < 98 {
+        format!("{} into_keys {}", tgt, g.rng.below(8))
+    } else if x < 99 {
+        format!("{} into_values {}", tgt, g.rng.below(8))
+    } else {
+        format!("{} values_mut_set {}", tgt, 700 + g.rng.below(50))
+    }
+}
+
+/// A stored key of `a` whose removal leaves a tombstone (its bucket sits in a run of at least one
+/// group width of non-EMPTY control bytes), if there is one.
+fn ent_tomb_key(g: &mut Gen, r: &dyn Runner) -> Option<u64> {
+    let d = r.dump("a");
+    if d.is_singleton {
+        return None;
+    }
+    let w = hashbrown::verif::GROUP_WIDTH;
+    let n = d.bucket_mask + 1;
+    if n < w {
+        return None;
+    }
+    let keys = r.keys("a");
+    let full: Vec<usize> = (0..n).filter(|&i| d.ctrl[i] & 0x80 == 0).collect();
+    let mut cand = Vec::new();
+    for (j, &i) in full.iter().enumerate() {
+        let back = (1..=w).take_while(|&s| d.ctrl[(i + n - s) % n] != 0xFF).count();
+        let fwd = (0..w).take_while(|&s| d.ctrl[(i + s) % n] != 0xFF).count();
+        if back + fwd >= w && j < keys.len() {
+            cand.push(keys[j]);
+        }
+    }
+    if cand.is_empty() {
+        None
+    } else {
+        Some(*g.rng.pick(&cand))
+    }
+}
+
+/// `entry-full`: phases 0 = pick a goal; 10 = fill to `growth_left == 0`; 20 = fill, 21 = punch
+/// tombstones; 30 = unallocated; 1 = issue entry ops in the reached state (`fresh_key` counts them).
+fn ent_steer(g: &mut Gen, r: &dyn Runner) -> Option<String> {
+    let d = r.dump("a");
+    let deleted = if d.is_singleton { 0 } else { d.ctrl[..=d.bucket_mask].iter().filter(|&&b| b == 0x80).count() };
+    match g.phase {
+        0 => {
+            g.phase = *g.rng.pick(&[10u32, 10, 20, 20, 30, 2]);
+            g.fresh_key = 0;
+            ent_steer(g, r)
+        }
+        // a stretch of unsteered traffic
+        2 => {
+            g.fresh_key += 1;
+            if g.fresh_key > 12 {
+                g.phase = 0;
+            }
+            None
+        }
+        10 | 20 => {
+            g.fresh_key += 1;
+            if !d.is_singleton && d.growth_left == 0 {
+                g.phase = if g.phase == 10 { 1 } else { 21 };
+                g.fresh_key = 0;
+                return ent_steer(g, r);
+            }
+            if g.fresh_key > 160 {
+                g.phase = 0;
+                return None;
+            }
+            match ent_absent_key(g, r, "a") {
+                // fill through the entry APIs as well
+                Some(k) => Some(match g.rng.below(4) {
+                    0 => {
+                        let kid = g.id();
+                        format!("a entry {} {} or_insert {}", k, kid, ent_val(g))
+                    }
+                    1 => {
+                        let kid = g.id();
+                        format!("a raw_from_key {} vac_insert {} {}", k, kid, ent_val(g))
+                    }
+                    _ => format!("a {}", g.insert(k)),
+                }),
+                None => {
+                    // universe exhausted: shrinking may still land on a full table
+                    g.phase = 1;
+                    g.fresh_key = 0;
+                    Some("a shrink_to_fit".into())
+                }
+            }
+        }
+        21 => {
+            // remove about half of the elements (tombstones where the runs are full)
+            g.fresh_key += 1;
+            let want = (d.items + d.growth_left + deleted) / 2;
+            if d.items <= want || g.fresh_key > 80 || d.items == 0 {
+                g.phase = 1;
+                g.fresh_key = 0;
+                return ent_steer(g, r);
+            }
+            let k = match ent_tomb_key(g, r) {
+                Some(k) => k,
+                None => g.present_key(r, "a").unwrap(),
+            };
+            Some(match g.rng.below(4) {
+                0 => {
+                    let kid = g.id();
+                    format!("a entry {} {} occ_remove", k, kid)
+                }
+                1 => format!("a raw_from_hash {} occ_remove_entry", k),
+                _ => format!("a remove {}", k),
+            })
+        }
+        30 => {
+            g.phase = 1;
+            g.fresh_key = 0;
+            Some(match g.rng.below(3) {
+                0 => "a with_capacity 0".to_string(),
+                1 => "a into_keys 0".to_string(),
+                _ => "a from_iter 0".to_string(),
+            })
+        }
+        _ => {
+            // in the steered state: entry ops, mostly on absent keys (these need a free slot)
+            g.fresh_key += 1;
+            let still = d.is_singleton || d.growth_left == 0;
+            if g.fresh_key > 6 || (!still && g.fresh_key > 2) {
+                g.phase = 0;
+            }
+            Some(ent_op(g, r, "a", 75))
+        }
+    }
 }
